@@ -650,15 +650,15 @@ example :
 /-! ## round 7: the history fold over the builders, discrete forms, soft constraints, removal, bounds, relabelled constraints -/
 
 /-- **History-level refinement, extended.**  `specStepAll` is the specification's step on the list of label-keyed polynomials
-    for 26 of the 30 `Cqm.Op` constructors: everything `specStep` covers (now with SOFT `add_constraint` from an iterable too),
-    plus `set_objective(model)`, `add_constraint(model | comparison)` hard and soft, copied or moved (`copy=` does not
+    for 27 of the 30 `Cqm.Op` constructors: everything `specStep` covers (now with SOFT `add_constraint` from an iterable too),
+    plus `add_variable` (given or generated label, stored bounds), `set_objective(model)`, `add_constraint(model | comparison)` hard and soft, copied or moved (`copy=` does not
     appear in the specification: the two paths denote the same polynomial), the three `add_discrete` forms (the constraint is
     the one-hot equality of the listed variables, marked), `remove_variable`, `spin_to_binary`, `set_lower_bound` /
     `set_upper_bound`, `relabel_constraints` and `deepcopy`.  From ANY reachable state (`pre` arbitrary), along ANY list of such
     operations whose calls all return normally, with model arguments well formed and free of BINARY/SPIN self-loops (true of
     every BQM / QM), the abstraction of the model's state is the fold of the specification.
-    Gap (hence `_partial`): `add_variable` (generated label / defaulted bounds: relational per-step statement
-    `refines_addVariable`), `flip_variable`, `change_vartype`, `relabel_variables` keep their per-step statements
+    Gap (hence `_partial`): `flip_variable` (its BINARY branch clears discrete marks by the index-level `is_discrete`),
+    `change_vartype` (three-way case split), `relabel_variables` (per-field statement) keep their per-step statements
     (`refines_flipVariable`, `refines_changeVartype`, `relabel_refines`) and may be interleaved through `pre`. -/
 theorem history_refines_builders_partial (pre ops : List Cqm.Op) (hpre : ∀ op ∈ pre, OpOK op) (hops : ∀ op ∈ ops, OpOK2 op)
     (hsucc : Succeeds (({} : Cqm).run pre) ops) (s' : LCqm)
@@ -671,6 +671,23 @@ theorem history_refines_builders_partial (pre ops : List Cqm.Op) (hpre : ∀ op 
   rw [this]
   exact specRunAll_refines ops hinv hops hsucc s' hspec
 
+/-- **The private variable order of a moved expression is label-level too.**  `add_constraint(model, copy=False)` moves the
+    model's storage into the CQM; the constraint it becomes has, as its PRIVATE variable order, the model's own variable order
+    (`lhs.variables == model.variables`), the model's polynomial, and the requested sense / rhs / weight / penalty — exactly
+    what `copy=True` gives: the two paths are indistinguishable on the list of label-keyed polynomials, private orders
+    included, and every earlier constraint and the objective are untouched. -/
+theorem moved_expression_private_order (m m1 m2 : Cqm) (h : RefInv m) (mi : Cqm.ModelIn) (hmi : ModelInOK mi) (hself : ModelNoSelf mi)
+    (sense : Sense) (rhs : Rat) (label : Label) (weight : Option Rat) (pen : Nat)
+    (hmove : m.step (.addConstraintModel mi sense rhs label false weight pen) = (m1, none))
+    (hcopy : m.step (.addConstraintModel mi sense rhs label true weight pen) = (m2, none)) :
+    absCqm m1 = absCqm m2
+    ∧ (∃ c, (absCqm m1).cons = ((absCqm m).addMissing mi).cons ++ [(label, c)]
+        ∧ c.p = LPoly.ofModel mi ∧ c.p.vars = mi.vars ∧ c.sense = sense ∧ c.rhs = rhs ∧ c.weight = weight)
+    ∧ (absCqm m1).obj = ((absCqm m).addMissing mi).obj := by
+  have e1 := (refines_addConstraintModel h.wf h.lab hmi hself sense rhs label false weight pen hmove).2.2.2
+  have e2 := (refines_addConstraintModel h.wf h.lab hmi hself sense rhs label true weight pen hcopy).2.2.2
+  refine ⟨by rw [e1, e2], ⟨_, by rw [e1], rfl, rfl, rfl, rfl, rfl⟩, by rw [e1]⟩
+
 /-- one step of it; and `specStepAll` agrees with `specStep` wherever that is defined on a hard constraint / non-builder -/
 theorem step_refines_spec_all (m : Cqm) (h : RefInv m) (op : Cqm.Op) (hop : OpOK2 op) (s' : LCqm)
     (hs : specStepAll (absCqm m) op = some s') (hok : (m.step op).2 = none) :
@@ -682,14 +699,14 @@ theorem step_refines_spec_all (m : Cqm) (h : RefInv m) (op : Cqm.Op) (hop : OpOK
     extended fold, every call returns, and every argument meets `OpOK2` -/
 example :
     let mi : Cqm.ModelIn := { vars := [.str "y", .str "s"], info := [(.binary, 0, 1), (.spin, -1, 1)], lin := [1, -2], quad := [(1, 0, 3)], off := 1 }
-    let ops : List Cqm.Op := [.addConstraintModel mi .ge 0 (.str "m") false (some 2) 0,
+    let ops : List Cqm.Op := [.addVariable .integer none none (some 7), .addConstraintModel mi .ge 0 (.str "m") false (some 2) 0,
                               .addDiscreteVars [.str "y", .str "z"] (.str "d") true,
                               .setUpperBound (.str "i") 4, .relabelConstraints [(.str "c", .str "c'")], .spinToBinary,
                               .addConstraintTerms [⟨[.str "i"], 1⟩] .le 2 (.str "soft") (some 3) 0,
                               .removeVariable (.str "s"), .deepcopy]
     (specRunAll (absCqm demo) ops).isSome = true
     ∧ (∀ k, k < ops.length → ((demo.run (ops.take k)).step (ops.getD k .deepcopy)).2 = none)
-    ∧ (demo.run ops).labels = [.str "x", .str "i", .str "y", .str "z"]
+    ∧ (demo.run ops).labels = [.str "x", .str "i", .str "y", .int 3, .str "z"]
     ∧ (demo.run ops).clabels = [.str "c'", .str "m", .str "d", .str "soft"] := by
   decide +kernel
 
